@@ -265,14 +265,25 @@ CHECKS["C13"] = dict(
 
 CHECKS["C02"] = dict(
     engine="codegen", design_ref="DESIGN.md 4 (C02)",
-    technique="TLC model checking of Codegen (checksum staleness protocol) + TLC-enumerated operation sequences replayed on a scratch "
-              "pycode directory with a versioned probe model, one fresh interpreter per step, validated by TLC against the Codegen "
-              "actions + independent evaluation of every declared equation string against the executed generated functions",
-    text="Codegen.tla (edit / prepare / System() with and without automatic regeneration / corrupt / delete) is model-checked for "
-         "'stale code is never silently used'; every operation sequence of length <= 3 and a residue class of length 5 is replayed on "
-         "the real code with a probe model whose residual, explicit and iterative initialiser and service strings carry a version, "
-         "and TLC decides from the recorded numbers which version actually ran; regeneration is compared byte for byte.",
-    note=TRUSTED.replace("vh/tdsdrv.py: ranks of floats, booleans computed on floats", "vh/codegendrv.py: identification of the version from computed numbers; vh/eqdrv.py: the independent expression evaluator"))
+    technique="TLC model checking of Codegen (checksum staleness protocol) and EqBinding (argument lookup by name, positional "
+              "delivery) with negative controls + TLC-enumerated operation sequences replayed on a scratch pycode directory with a "
+              "versioned probe model (one fresh interpreter per step), validated by TLC against the Codegen actions + every declared "
+              "equation string of every shipped model evaluated independently (Python AST over numpy, no sympy) against the executed "
+              "generated functions on a TLC-enumerated argument lattice, validated by TLC (Trace_EqBinding)",
+    text="Equation level: for each of the ~3000 declared residual / explicit initialiser / iterative initialiser / service strings of all "
+         "shipped models the numbers delivered by the generated code that a System actually loads (called through Model.f_update / "
+         "g_update / s_update_var and the per-name functions, i.e. with the library's argument lookup and positional delivery) are compared "
+         "at 48 (quick) / 192 (thorough) lattice points with an independent evaluation of the declared string; TLC decides agreement, that "
+         "each value reaches the variable it was declared for (naming the permutation otherwise) and that every declared item has a loaded "
+         "function; both outcomes of ~99 % of the comparisons inside Piecewise / Indicator terms occur.  Protocol level: Codegen.tla is "
+         "model-checked for 'stale code is never silently used'; every operation sequence of length <= 3 and a residue class of length 5 over "
+         "{edit residual / initialiser / iterative initialiser (single and mutually dependent) / service / external equation / declaration "
+         "order, prepare, System() with and without automatic regeneration, corrupt, delete} is replayed with a probe model whose strings "
+         "carry a version, and TLC decides from the computed numbers which version actually ran.",
+    note=TRUSTED.replace("vh/tdsdrv.py: ranks of floats, booleans computed on floats", "vh/eqdrv.py: the independent expression evaluator (function table "
+                         "of 25 names, comparison at 1e-9 relative); vh/codegendrv.py: identification of the version from computed numbers")
+         + "Points where the declared string is undefined (division by zero, root of a negative number) are not compared. Jacobian functions are "
+           "C03's concern. Byte-identical regeneration is checked in the thorough tier only (two full generations).")
 
 NOT_APPLICABLE = [
     {"property_id": "C07", "reason": "numeric accuracy / convergence order against closed-form and matrix-exponential references: no "
